@@ -20,6 +20,16 @@ NA = {
 }
 
 CLAIMS = {
+    'C01': dict(
+        category='exploration', technique='deterministic simulation: seeded tree workload x serialise options x seeded chunk/file delivery schedules, reference model = the tree',
+        engine='E1-stream',
+        text='Seeded trees are serialised (to str and to text file objects in both host newline modes) and parsed back under str, list, generator-chunk, line and file-object deliveries with cuts biased into escape sequences; a structural walk compares names (original casing), values, shape and order with the tree, serialise must not mutate its argument, and outputs under different indentation options must agree outside quoted strings (independent scanner). The quantifier over trees is sampled; the delivery dimension is searched.',
+        note='Python tokenizer twin only; trees sampled (<=150 nodes, depth<=5); names without CR/LF as the statement says.', ref='5/C01'),
+    'C02': dict(
+        category='exploration', technique='deterministic simulation: bounded-exhaustive + seeded strings x every single chunk cut of the escaped text x embedding templates, expected token list as reference model',
+        engine='E1-stream',
+        text='For every string over the 15-symbol escape alphabet up to length 3 (quick) / 4 (thorough) and seeded Unicode strings, in both escaping modes and seven embedding templates (KeyValues, VMF comment/fixup/output, BSP entity lump, DMX-KV2 lines): escape_text output has no raw quote / line break and tokenizes to exactly the expected tokens under every single cut of the quoted text, every-char chunks, multi-cuts with empty chunks and a file object with short raw reads.',
+        note='Python twin of escape_text/Tokenizer only; strings beyond the enumerated bound are sampled.', ref='5/C02'),
     'C03': dict(
         category='fault_enumeration', technique='deterministic simulation: seeded chunk-delivery schedules + stream fault injection (truncation, decode fault), differential against single-string delivery, line-event step clock',
         engine='E1-stream',
